@@ -53,6 +53,9 @@ func c05Config(t *verifrt.Tape) *Config {
 	cfg.ReqAccess = t.Draw(5) != 0
 	cfg.RespAccess = t.Draw(2) == 0
 	cfg.UploadDir = simos.Root + "/upload"
+	if t.Draw(3) == 0 {
+		cfg.ArgLimit = 1 + t.Draw(6) // within reach of the names a short history uses
+	}
 	ae := pick(t, []string{"On", "RelevantOnly", "Off"})
 	cfg.Lines = append(cfg.Lines,
 		"SecAuditEngine "+ae,
@@ -84,7 +87,12 @@ func c05Run(w *verifrt.World, tier Tier) *RunResult {
 	sc.Probe = genScript(t, ro, "probe")
 	if t.Draw(4) == 0 {
 		sc.FaultAt = t.Draw(12)
-		sc.FaultKind = pick(t, []string{"create-fail", "write-error", "short-write", "read-error", "close-error", "remove-error"})
+		sc.FaultKind = pick(t, []string{"create-fail", "write-error", "short-write", "read-error", "close-error", "remove-error", "remove-error", "close-error"})
+		if t.Draw(2) == 0 {
+			// a Close that failed, then a second Close of the same transaction
+			last := sc.Predecessors[len(sc.Predecessors)-1]
+			last.DoubleClose, last.StopAfter, last.NoLogging = true, -1, false
+		}
 	}
 	res.Sample = sc
 	js, _ := json.Marshal(sc)
